@@ -271,7 +271,7 @@ def _vec_effects(ctx, lib, adt, fname, allowed, rule):
                 if t[0] == "field" and t[2] == adt and t[3] == fname:
                     n += 1
                     base = core.callee_base(c.key)
-                    if base in READONLY_VEC or base in core.IDENTITY_KEYS:
+                    if base in READONLY_VEC or base in core.IDENTITY_KEYS or base in core.NEUTRAL_VEC:
                         continue
                     if base in allowed and (allowed[base] is None or fv.root.body.key in allowed[base]):
                         continue
